@@ -121,8 +121,8 @@ def run_case(case, st=None):
         # dynamic input predicates (decided by the reference run on the input alone, before rdflib is consulted)
         if R.STATS["error_through_function_argument"]: carve.append("T6-error-through-function-argument")
         if R.STATS["error_inside_IN_list"]: carve.append("T7-error-inside-IN-list")
-        if R.STATS["str_of_bnode"]: carve.append("T8-STR-of-blank-node")
-        if R.STATS["float_arithmetic"]: carve.append("T9-xsd:float-arithmetic-gives-double")
+        if R.STATS["str_of_bnode"]: carve.append("C04-T8-str-of-bnode")
+        if R.STATS["float_arithmetic"]: carve.append("C04-T9-float-arithmetic")
         for c in carve: st.setdefault("_known", {})[c] = 1
     if carve:
         st["carved"] = st.get("carved", 0) + 1
